@@ -197,10 +197,11 @@ def _hints_tag(kind):
     return "host-with-hints"
 
 
-def check_valid(env, meth, sit, r, cg, agent_names, must_host, fp, cap, capacity_aware, info):
+def check_valid(env, meth, sit, r, cg, agent_names, must_host, fp, cap, capacity_aware, info, first=False):
     """``r`` = what distribute returned (or Raised).  States the C23 obligations.  ``sit`` names the
     situation (kind of hints, zero hosting costs possible, ...) so that distinct causes of a failure
-    get distinct obligation labels."""
+    get distinct obligation labels.  ``first`` (second call on the same inputs only): the mapping the first
+    call returned, or None; a must-host hint the first call already ignored (KF-DIST-1) is not asked again."""
     from pydcop.distribution.objects import Distribution, ImpossibleDistributionException
     L = lambda what, extra=None: "%s.C23.%s[%s]" % (meth, what, ",".join(([extra] if extra else []) + sit))  # noqa
     if isinstance(r, Raised):
@@ -225,6 +226,8 @@ def check_valid(env, meth, sit, r, cg, agent_names, must_host, fp, cap, capacity
     prove(env, L("agent_for-agrees-with-mapping"), consistent, detail=det)
     for a, cs in must_host.items():
         for c in cs:
+            if first is not False and (first is None or c not in first.get(a, [])):
+                continue
             prove(env, L("must-host-hints-honoured"), c in mapping.get(a, []),
                       detail=lambda: dict(info(), mapping=mapping, must_host=must_host))
     if capacity_aware:
@@ -233,6 +236,131 @@ def check_valid(env, meth, sit, r, cg, agent_names, must_host, fp, cap, capacity
             prove(env, L("hosted-footprint-within-capacity"), le(ssum([fp[c] for c in mine]), cap[a]),
                       detail=lambda: dict(info(), mapping=mapping, agent=a, footprints=fp, capacities=cap))
     return mapping
+
+
+# ------------------------------------------------------------------ frame: what a caller can observe of the inputs of distribute()
+
+SECOND = "second-call-on-the-same-inputs"
+
+
+def _same(a, b):
+    """python bool or symbolic bool: a and b are the same observation (symbolic numbers by identity, else pvc.sym.eq;
+    never ``==`` on them in a python ``if``).  Dict key order is not part of the observation, list order is."""
+    if a is b:
+        return True
+    if is_sym(a) or is_sym(b):
+        return eq(a, b)
+    if isinstance(a, (list, tuple)) and isinstance(b, (list, tuple)):
+        return type(a) is type(b) and len(a) == len(b) and And([_same(x, y) for x, y in zip(a, b)])
+    if isinstance(a, dict) and isinstance(b, dict):
+        return set(a) == set(b) and And([_same(a[k], b[k]) for k in a])
+    if isinstance(a, (bool, int, float)) and isinstance(b, (bool, int, float)):
+        return type(a) is type(b) and a == b
+    return bool(a == b)
+
+
+def _obs_graph(cg):
+    """node objects (by identity, in order), their names / types / neighbours / links, the links of the graph"""
+    nodes = list(cg.nodes)
+    return dict(nodes=[_Ident(n) for n in nodes], names=[n.name for n in nodes], types=[n.type for n in nodes],
+                node_names=list(cg.node_names()),
+                neighbors=[list(n.neighbors) for n in nodes],
+                links=[[(type(l).__name__, l.type, frozenset(l.nodes)) for l in n.links] for n in nodes],
+                all_links=set((type(l).__name__, l.type, frozenset(l.nodes)) for l in cg.links))
+
+
+class _Ident:
+    """an object compared by identity"""
+
+    def __init__(self, o):
+        self.o = o
+
+    def __eq__(self, other):
+        return isinstance(other, _Ident) and self.o is other.o
+
+    def __hash__(self):
+        return id(self.o)
+
+    def __repr__(self):
+        return "<%s>" % (getattr(self.o, "name", None) or type(self.o).__name__)
+
+
+def _obs_agents(agentsdef, agent_names, comps):
+    """the agent definitions as a caller reads them: the iterable handed to distribute (same objects, same order) and
+    each definition's name, capacity, defaults, cost tables and its answers to route() / hosting_cost()"""
+    others = list(agent_names) + ["zz_undeclared_agent"]
+    cs = list(comps) + ["zz_undeclared_computation"]
+    out = dict(objects=[_Ident(a) for a in agentsdef], defs=[])
+    for a in agentsdef:
+        out["defs"].append(dict(
+            name=a.name, capacity=a.capacity, default_hosting_cost=a.default_hosting_cost, default_route=a.default_route,
+            hosting_costs=dict(a.hosting_costs), routes=dict(a.routes), extra=dict(a.extra_attr()),
+            route=[a.route(b) for b in others], hosting_cost=[a.hosting_cost(c) for c in cs]))
+    return out
+
+
+def _obs_hints(hints, must_host, agent_names, comps):
+    """DistributionHints through must_host() / host_with(), plus the must_host table the caller built them from"""
+    if hints is None:
+        return dict(hints=None, table={a: list(cs) for a, cs in must_host.items()})
+    return dict(must_host={a: list(hints.must_host(a)) for a in list(agent_names) + ["zz_undeclared_agent"]},
+                host_with={c: list(hints.host_with(c)) for c in list(comps) + ["zz_undeclared_computation"]},
+                table={a: list(cs) for a, cs in must_host.items()})
+
+
+def _obs_callables(cg, memory, comm):
+    """the answers of computation_memory / communication_load on every node / every (node, neighbour)"""
+    nodes = list(cg.nodes)
+    return dict(memory=[memory(n) for n in nodes], load=[[comm(n, t) for t in n.neighbors] for n in nodes])
+
+
+class Frame:
+    """observational snapshot of everything handed to distribute(); ``check`` states the frame obligations"""
+
+    def __init__(self, env, tag, cg, agentsdef, agent_names, hints, must_host, memory, comm, tables):
+        self.env, self.tag = env, tag
+        self.comps = [n.name for n in cg.nodes]
+        self.args = (cg, agentsdef, agent_names, hints, must_host, memory, comm, tables)
+        self.before = self.observe()
+
+    def observe(self):
+        cg, agentsdef, agent_names, hints, must_host, memory, comm, tables = self.args
+        return dict(graph=_obs_graph(cg), agents=_obs_agents(agentsdef, agent_names, self.comps),
+                    hints=_obs_hints(hints, must_host, agent_names, self.comps),
+                    callables=_obs_callables(cg, memory, comm),
+                    tables={k: dict(v) if isinstance(v, dict) else v for k, v in tables.items()})
+
+    def check(self, when, info):
+        """inputs read again: every observation is what it was before the first call"""
+        now = self.observe()
+        what = dict(graph="computation-graph", agents="agent-definitions", hints="distribution-hints",
+                    callables="computation_memory-and-communication_load-answers", tables="footprint-capacity-cost-tables")
+        ok = True
+        for k, name in what.items():
+            b, n = self.before[k], now[k]
+            ok &= bool(prove(self.env, "%s.frame.%s-unchanged[%s]" % (self.tag, name, when), _same(b, n),
+                             detail=lambda: dict(info(), before=b, after=n)))
+        return ok
+
+
+def _mapping_of(r):
+    from pydcop.distribution.objects import Distribution
+    return {a: list(cs) for a, cs in r.mapping().items()} if isinstance(r, Distribution) else None
+
+
+def scribble_on(results):
+    """use the returned Distribution objects the way a caller may (host more computations, edit the lists of mapping())"""
+    from pydcop.distribution.objects import Distribution
+    for i, r in enumerate(results):
+        if not isinstance(r, Distribution):
+            continue
+        for cs in r.mapping().values():
+            cs.append("zz_appended_%d" % i)
+        for a in list(r.mapping()):
+            try:
+                r.host_on_agent(a, ["zz_hosted_%d_%s" % (i, a)])
+            except Exception:  # noqa  (an inconsistent result is C23's business, not the frame's)
+                pass
 
 
 # ------------------------------------------------------------------ C23, heuristic methods (symbolic numbers)
@@ -301,6 +429,8 @@ def h_heuristics(env):
     if p.get("via") == "command-call":
         # the exact call ``pydcop distribute`` makes (commands/distribute.py: run_cmd)
         kw["timeout"] = 3600
+    frame = Frame(env, meth + ".C23", cg, agentsdef, names, hints, must_host, memory, comm, dict(footprints=fp, capacities=cap))
+    kw_before = dict(kw)
     r = env.call(lambda: mod.distribute(cg, agentsdef, **kw))
     sit = [_hints_tag(p.get("hints", "none"))]
     if meth == "gh_cgdp":
@@ -312,6 +442,29 @@ def h_heuristics(env):
     info = lambda: dict(method=meth, graph=p["graph"], dcop=p["dcop"], agents=names, hints=p.get("hints", "none"),  # noqa
                         hosting=hosting)
     check_valid(env, meth, sit, r, cg, names, must_host, fp, cap, meth in CAPACITY_AWARE, info)
+    # ---- frame: distribute() reads its inputs, it does not write into them
+    prove(env, "%s.C23.frame.keyword-arguments-unchanged" % meth, _same(kw_before, kw), detail=lambda: (info(), kw_before, kw))
+    if not frame.check("after-the-call", info):
+        return
+    first = _mapping_of(r)
+    results = [r]
+    # the same graph / agents / hints serve a second distribution (pydcop solve after pydcop distribute, a batch over several
+    # methods, ...): the second call answers to the same obligations.  Symbolic exploration: only where the second call adds
+    # no decisions or the case asks for it (the draws of the second call are fresh inputs); native runs (sampling, replay): always
+    if (not env.symbolic) or meth == "oneagent" or p.get("again"):
+        n_shuffle = rnd.n_shuffle
+        r2 = env.call(lambda: mod.distribute(cg, agentsdef, **kw))
+        sit2 = [s_ for s_ in sit if s_ not in ("first-attempt", "after-a-retry")]
+        if meth == "adhoc":
+            sit2.append("first-attempt" if rnd.n_shuffle - n_shuffle <= 1 else "after-a-retry")
+        check_valid(env, meth, sit2 + [SECOND], r2, cg, names, must_host, fp, cap, meth in CAPACITY_AWARE, info, first=first)
+        prove(env, "%s.C23.frame.first-result-unchanged-by-the-second-call" % meth, _same(first, _mapping_of(r)),
+              detail=lambda: (info(), first, _mapping_of(r)))
+        frame.check("after-" + SECOND, info)
+        results.append(r2)
+    # the result is the caller's: editing it does not reach the inputs
+    scribble_on(results)
+    frame.check("after-editing-the-result", info)
 
 
 def _case(method, dcop, graph, agents, **kw):
